@@ -148,6 +148,8 @@ def und_graphs(draw, tier="quick", salt=0):
         "order": list(draw(st.permutations(range(n)))) if n else [],
         "adj": adj,
         "container": draw(st.integers(0, 2)),
+        "nodes_kind": draw(st.integers(0, 6)),
+        "edits": draw_edits(draw, adj, directed=False),
         "k": draw(st.integers(0, 5)),
         "first": draw(st.sampled_from(["ap", "bridges"])),
         "res": draw(st.one_of(st.integers(2, 24).map(lambda k: k / 8), st.floats(0.2, 3.0, allow_nan=False))),
@@ -191,6 +193,8 @@ def digraphs(draw, tier="quick"):
         "order": list(draw(st.permutations(range(n)))) if n else [],
         "adj": adj,
         "container": draw(st.integers(0, 2)),
+        "nodes_kind": draw(st.integers(0, 6)),
+        "edits": draw_edits(draw, adj, directed=True),
         "api": draw(st.sampled_from(["callback", "callback", "edges"])),
         "damping": damping,
         "tol": draw(st.sampled_from([1e-6, 1e-9])),
@@ -199,25 +203,107 @@ def digraphs(draw, tier="quick"):
 
 
 # ----------------------------------------------------------------------------- building live inputs
-def build(desc):
-    n, sch = desc["n"], desc["scheme"]
-    L = [lab(sch, i) for i in range(n)]
-    table = {L[i]: [L[j] for j in desc["adj"][i]] for i in range(n)}
-    kind = desc.get("container", 0)
+NODE_KINDS = ["list", "tuple", "dict-keys", "set", "generator", "iter", "range-or-map"]
 
-    def neighbors(v):
-        if kind == 0:
-            return list(table[v])
-        if kind == 1:
-            return tuple(table[v])
-        return (w for w in table[v])
 
-    nodes = [L[i] for i in desc["order"]]
-    return L, {L[i]: i for i in range(n)}, nodes, neighbors
+def apply_edit(adj, e):
+    """One edit of the listed graph, on index lists, in place (shared by generators and run functions).
+
+    ["add-both",u,v] list the edge from both ends; ["add-one",u,v] append v to u's list only (for digraphs:
+    the arc u->v); ["remove",u,v] delete every listing of the pair from both lists; ["remove-arc",u,v] delete
+    v from u's list only."""
+    n = len(adj)
+    if n == 0:
+        return
+    op, u, v = e[0], e[1] % n, e[2] % n
+    if op == "add-both":
+        adj[u].append(v)
+        if u != v:
+            adj[v].append(u)
+    elif op == "add-one":
+        adj[u].append(v)
+    elif op == "remove":
+        adj[u] = [x for x in adj[u] if x != v]
+        adj[v] = [x for x in adj[v] if x != u]
+    elif op == "remove-arc":
+        adj[u] = [x for x in adj[u] if x != v]
+
+
+def draw_edits(draw, adj, directed):
+    """0-2 edits (half of the cases none); removals aim at a pair that is currently listed."""
+    n = len(adj)
+    k = draw(st.sampled_from([0, 0, 0, 1, 1, 2])) if n else 0
+    cur = [list(a) for a in adj]
+    edits = []
+    for _ in range(k):
+        op = draw(st.sampled_from(["add-one", "remove-arc", "remove-arc"] if directed else ["add-both", "add-one", "remove", "remove"]))
+        listed = [(u, v) for u in range(n) for v in cur[u]]
+        if op.startswith("remove") and listed:
+            u, v = draw(st.sampled_from(listed))
+        else:
+            u, v = draw(st.integers(0, n - 1)), draw(st.integers(0, n - 1))
+        e = [op, u, v]
+        apply_edit(cur, e)
+        edits.append(e)
+    return edits
+
+
+class Live:
+    """A long-lived graph: ONE mutable dict of neighbour lists, ONE neighbour function object over it
+    (the way users hold a graph), a fresh `nodes` iterable of the generated kind for every call."""
+
+    def __init__(self, desc):
+        n, sch = desc["n"], desc["scheme"]
+        self.n, self.scheme = n, sch
+        self.L = L = [lab(sch, i) for i in range(n)]
+        self.idx = {L[i]: i for i in range(n)}
+        self.adj = [list(a) for a in desc["adj"]]
+        self.table = table = {L[i]: [L[j] for j in self.adj[i]] for i in range(n)}
+        self.base = [L[i] for i in desc["order"]]
+        self.kind = NODE_KINDS[desc.get("nodes_kind", 0) % len(NODE_KINDS)]
+        kind = desc.get("container", 0)
+
+        def neighbors(v):
+            if kind == 0:
+                return table[v]  # the stored list itself, as in `lambda v: graph[v]`
+            if kind == 1:
+                return tuple(table[v])
+            return (w for w in table[v])
+
+        self.neighbors = neighbors
+
+    def nodes(self):
+        """`nodes: Iterable[S]` — every documented kind, one-shot iterables included; new object per call."""
+        b, k = self.base, self.kind
+        if k == "list":
+            return list(b)
+        if k == "tuple":
+            return tuple(b)
+        if k == "dict-keys":
+            return dict.fromkeys(b).keys()
+        if k == "set":
+            return set(b)
+        if k == "generator":
+            return (v for v in b)
+        if k == "iter":
+            return iter(list(b))
+        return range(self.n) if self.scheme == 0 else map(lambda v: v, b)
+
+    def edit(self, e):
+        apply_edit(self.adj, e)
+        for i, a in enumerate(self.adj):  # in place: same dict, same list objects, same function object
+            self.table[self.L[i]][:] = [self.L[j] for j in a]
+
+
+def judge(step, got, prev, area, bucket, detail):
+    """A wrong answer that merely repeats the answer given before the graph was edited gets its own bucket."""
+    if step and prev is not None and got == prev:
+        raise Violation(f"{area}:stale-after-graph-edit", {"step": step, **detail})
+    raise Violation(bucket, {"step": step, **detail} if step else detail)
 
 
 def classify_und(desc, ctx):
-    """Labels + the DESIGN non-triviality rule; returns (nb, cut, bridges)."""
+    """Labels + the DESIGN non-triviality rule (on the initial graph); returns (nb, cut, bridges)."""
     n, adj = desc["n"], desc["adj"]
     nb = G.symmetrise(n, adj)
     cut = G.cut_vertices(n, nb)
@@ -228,6 +314,8 @@ def classify_und(desc, ctx):
     ctx.label(
         desc["family"],
         f"labels-{desc['scheme']}",
+        "nodes-as-" + NODE_KINDS[desc.get("nodes_kind", 0) % len(NODE_KINDS)],
+        f"edits-{len(desc.get('edits', []))}",
         one_sided and "asymmetric-listing",
         any(u in adj[u] for u in range(n)) and "self-loop",
         any(len(a) != len(set(a)) for a in adj) and "duplicate-neighbours",
@@ -246,10 +334,11 @@ def classify_und(desc, ctx):
 
 
 # ----------------------------------------------------------------------------- articulation points / bridges
-def _check_ap(ctx, idx, nodes, neighbors, cut):
+def _check_ap(ctx, live, cut, step, prev):
     from solvor.articulation import articulation_points
 
-    res = ctx.call(articulation_points, list(nodes), neighbors)
+    idx = live.idx
+    res = ctx.call(articulation_points, live.nodes(), live.neighbors)
     got = res.solution
     if not isinstance(got, (set, frozenset)):
         raise Violation("ap:not-a-set", repr(got)[:200])
@@ -257,15 +346,17 @@ def _check_ap(ctx, idx, nodes, neighbors, cut):
         raise Violation("ap:unknown-node", repr(got)[:200])
     got = {idx[v] for v in got}
     if got - cut:
-        raise Violation("ap:spurious", {"got": sorted(got), "want": sorted(cut), "spurious": sorted(got - cut)})
+        judge(step, got, prev, "ap", "ap:spurious", {"got": sorted(got), "want": sorted(cut), "spurious": sorted(got - cut)})
     if cut - got:
-        raise Violation("ap:missed", {"got": sorted(got), "want": sorted(cut), "missed": sorted(cut - got)})
+        judge(step, got, prev, "ap", "ap:missed", {"got": sorted(got), "want": sorted(cut), "missed": sorted(cut - got)})
+    return got
 
 
-def _check_bridges(ctx, idx, nodes, neighbors, br):
+def _check_bridges(ctx, live, br, step, prev):
     from solvor.articulation import bridges
 
-    res = ctx.call(bridges, list(nodes), neighbors)
+    idx = live.idx
+    res = ctx.call(bridges, live.nodes(), live.neighbors)
     lst = res.solution
     if not isinstance(lst, list):
         raise Violation("bridges:not-a-list", repr(lst)[:200])
@@ -280,112 +371,147 @@ def _check_bridges(ctx, idx, nodes, neighbors, br):
             raise Violation("bridges:duplicate", repr(e))
         seen.add(key)
     if seen - br:
-        raise Violation("bridges:spurious", {"got": sorted(seen), "want": sorted(br), "spurious": sorted(seen - br)})
+        judge(step, seen, prev, "bridges", "bridges:spurious", {"got": sorted(seen), "want": sorted(br), "spurious": sorted(seen - br)})
     if br - seen:
-        raise Violation("bridges:missed", {"got": sorted(seen), "want": sorted(br), "missed": sorted(br - seen)})
+        judge(step, seen, prev, "bridges", "bridges:missed", {"got": sorted(seen), "want": sorted(br), "missed": sorted(br - seen)})
+    return seen
 
 
 def run_articulation(desc, ctx):
-    """Both functions on the same listed graph; desc["first"] says which one is called and judged first
-    (so that a defect common to both is reported, shrunk and saved for each of them)."""
-    L, idx, nodes, neighbors = build(desc)
+    """Both functions on the same live graph (same neighbour-function object, sibling called right after);
+    desc["first"] says which one is called and judged first (so that a defect common to both is reported,
+    shrunk and saved for each of them).  Then every generated edit is applied to the live graph and both are
+    called again and judged against the oracle of the edited graph."""
+    live = Live(desc)
+    n = desc["n"]
     nb, cut, br = classify_und(desc, ctx)
-    if desc.get("first", "ap") == "ap":
-        _check_ap(ctx, idx, nodes, neighbors, cut)
-        _check_bridges(ctx, idx, nodes, neighbors, br)
-    else:
-        _check_bridges(ctx, idx, nodes, neighbors, br)
-        _check_ap(ctx, idx, nodes, neighbors, cut)
+    order = ("ap", "bridges") if desc.get("first", "ap") == "ap" else ("bridges", "ap")
+    prev = {"ap": None, "bridges": None}
+    edits = desc.get("edits", [])
+    for step in range(len(edits) + 1):
+        if step:
+            live.edit(edits[step - 1])
+            nb = G.symmetrise(n, live.adj)
+            cut2, br2 = G.cut_vertices(n, nb), G.bridges(n, nb)
+            ctx.label((cut2 != cut or br2 != br) and "edit-changes-answer")
+            cut, br = cut2, br2
+        for fn in order:
+            if fn == "ap":
+                prev["ap"] = _check_ap(ctx, live, cut, step, prev["ap"])
+            else:
+                prev["bridges"] = _check_bridges(ctx, live, br, step, prev["bridges"])
 
 
 # ----------------------------------------------------------------------------- k-cores
 def run_kcore(desc, ctx):
     from solvor.kcore import kcore, kcore_decomposition
 
-    L, idx, nodes, neighbors = build(desc)
-    n = desc["n"]
+    live = Live(desc)
+    L, idx, n, k = live.L, live.idx, desc["n"], desc["k"]
     nb, _, _ = classify_und(desc, ctx)
-    want = G.core_numbers(n, nb)
-    top = max(want, default=0)
-    ctx.label(f"maxcore-{min(top, 4)}{'+' if top >= 4 else ''}", len(set(want)) >= 3 and "distinct-cores>=3")
-    ctx.size("maxcore", top)
+    edits = desc.get("edits", [])
+    prev_dec = prev_set = prev_want = None
+    for step in range(len(edits) + 1):
+        if step:
+            live.edit(edits[step - 1])
+            nb = G.symmetrise(n, live.adj)
+        want = G.core_numbers(n, nb)
+        top = max(want, default=0)
+        if step == 0:
+            ctx.label(f"maxcore-{min(top, 4)}{'+' if top >= 4 else ''}", len(set(want)) >= 3 and "distinct-cores>=3", k > top and "k>maxcore", k == 0 and "k=0")
+        else:
+            ctx.label(want != prev_want and "edit-changes-answer")
+        prev_want = want
+        ctx.size("maxcore", top)
 
-    res = ctx.call(kcore_decomposition, list(nodes), neighbors)
-    got = res.solution
-    if not isinstance(got, dict):
-        raise Violation("kcore:decomposition-not-a-dict", repr(got)[:200])
-    if set(got) != set(L):
-        raise Violation("kcore:decomposition-keys", {"got": repr(sorted(got, key=repr)), "n": n})
-    bad = {i: [got[L[i]], want[i]] for i in range(n) if got[L[i]] != want[i]}
-    if bad:
-        raise Violation("kcore:core-number-wrong", {"node: [got, want]": bad})
+        res = ctx.call(kcore_decomposition, live.nodes(), live.neighbors)
+        got = res.solution
+        if not isinstance(got, dict):
+            raise Violation("kcore:decomposition-not-a-dict", repr(got)[:200])
+        if set(got) != set(L):
+            raise Violation("kcore:decomposition-keys", {"got": repr(sorted(got, key=repr)), "n": n})
+        dec = [got[L[i]] for i in range(n)]
+        bad = {i: [dec[i], want[i]] for i in range(n) if dec[i] != want[i]}
+        if bad:
+            judge(step, dec, prev_dec, "kcore", "kcore:core-number-wrong", {"node: [got, want]": bad})
+        prev_dec = dec
 
-    k = desc["k"]
-    ctx.label(k > top and "k>maxcore", k == 0 and "k=0")
-    res = ctx.call(kcore, list(nodes), neighbors, k)
-    s = res.solution
-    if not isinstance(s, (set, frozenset)) or any(v not in idx for v in s):
-        raise Violation("kcore:kcore-not-a-node-set", repr(s)[:200])
-    wset = {i for i in range(n) if want[i] >= k}
-    gset = {idx[v] for v in s}
-    if gset != wset:
-        raise Violation("kcore:kcore-set-wrong", {"k": k, "got": sorted(gset), "want": sorted(wset)})
+        res = ctx.call(kcore, live.nodes(), live.neighbors, k)
+        s = res.solution
+        if not isinstance(s, (set, frozenset)) or any(v not in idx for v in s):
+            raise Violation("kcore:kcore-not-a-node-set", repr(s)[:200])
+        wset = {i for i in range(n) if want[i] >= k}
+        gset = {idx[v] for v in s}
+        if gset != wset:
+            judge(step, gset, prev_set, "kcore", "kcore:kcore-set-wrong", {"k": k, "got": sorted(gset), "want": sorted(wset)})
+        prev_set = gset
 
 
 # ----------------------------------------------------------------------------- Louvain
 def run_louvain(desc, ctx):
     from solvor.community import louvain
 
-    L, idx, nodes, neighbors = build(desc)
-    n, adj = desc["n"], desc["adj"]
+    live = Live(desc)
+    L, idx, n = live.L, live.idx, desc["n"]
     nb, _, _ = classify_und(desc, ctx)
     gamma = desc["res"]
+    edits = desc.get("edits", [])
+    prev = None
+    for step in range(len(edits) + 1):
+        if step:
+            live.edit(edits[step - 1])
+            nb2 = G.symmetrise(n, live.adj)
+            ctx.label(nb2 != nb and "edit-changes-graph")
+            nb = nb2
+        adj = live.adj
+        res = ctx.call(louvain, live.nodes(), live.neighbors, resolution=gamma)
+        comms = res.solution
+        if not isinstance(comms, list) or not all(isinstance(c, (set, frozenset)) for c in comms):
+            raise Violation("louvain:not-a-list-of-sets", repr(comms)[:200])
+        if any(len(c) == 0 for c in comms):
+            raise Violation("louvain:empty-community", repr(comms)[:300])
+        flat = [v for c in comms for v in c]
+        if any(v not in idx for v in flat):
+            raise Violation("louvain:unknown-node", repr(comms)[:300])
+        if len(flat) != len(set(flat)):
+            raise Violation("louvain:communities-overlap", repr(comms)[:300])
+        if set(flat) != set(L):
+            raise Violation("louvain:not-a-cover", {"missing": repr([v for v in L if v not in set(flat)])})
+        if step == 0:
+            ctx.label(f"communities-{min(len(comms), 4)}{'+' if len(comms) >= 4 else ''}", any(len(c) >= 3 for c in comms) and "community>=3")
+        icomms = [[idx[v] for v in c] for c in comms]
 
-    res = ctx.call(louvain, list(nodes), neighbors, resolution=gamma)
-    comms = res.solution
-    if not isinstance(comms, list) or not all(isinstance(c, (set, frozenset)) for c in comms):
-        raise Violation("louvain:not-a-list-of-sets", repr(comms)[:200])
-    if any(len(c) == 0 for c in comms):
-        raise Violation("louvain:empty-community", repr(comms)[:300])
-    flat = [v for c in comms for v in c]
-    if any(v not in idx for v in flat):
-        raise Violation("louvain:unknown-node", repr(comms)[:300])
-    if len(flat) != len(set(flat)):
-        raise Violation("louvain:communities-overlap", repr(comms)[:300])
-    if set(flat) != set(L):
-        raise Violation("louvain:not-a-cover", {"missing": repr([v for v in L if v not in set(flat)])})
-    ctx.label(f"communities-{min(len(comms), 4)}{'+' if len(comms) >= 4 else ''}", any(len(c) >= 3 for c in comms) and "community>=3")
-    icomms = [[idx[v] for v in c] for c in comms]
-
-    # Which graph does the reported modularity refer to?  community.py builds `adj`/`degree` from the
-    # neighbour lists with `w != v` (self loops dropped), `if w not in adj[v]` (a pair counts once however
-    # often and from whichever side it is listed) and mirrors every pair: i.e. the SYMMETRISED SIMPLE
-    # LOOP-FREE graph with unit weights; m = number of distinct pairs; Q = sum_c [L_c/m - gamma (d_c/2m)^2];
-    # an edgeless graph (m = 0, Q undefined) is reported as 0.0.  That is reading (a) = DESIGN's oracle.
-    # Readings (b) loops kept (1 to m, 2 to the degree) and (c) multigraph (pair weight = the larger of the
-    # two listing counts, loops kept) are the other defensible ones; matching only one of those is accepted
-    # but labelled, matching none is the violation.
-    q = res.objective
-    if not isinstance(q, (int, float)) or q != q:
-        raise Violation("louvain:modularity-not-a-number", repr(q))
-    simple = {e: 1 for e in G.edge_list(n, nb)}
-    loops = {(u, u): 1 for u in range(n) if u in adj[u]}
-    multi = {(u, v): max(adj[u].count(v), adj[v].count(u)) for (u, v) in simple}
-    multi.update({(u, u): adj[u].count(u) for (u, _) in loops})
-    readings = {"simple": simple, "simple+loops": {**simple, **loops}, "multigraph": multi}
-    vals = {}
-    for name, w in readings.items():
-        x = G.modularity(n, w, icomms, gamma)
-        vals[name] = 0.0 if x is None else float(x)
-    # 1e-9: Q is a sum of <= n terms of magnitude <= ~10 computed in doubles (error ~1e-15); the exact
-    # value is rounded once by float(); 1e-9 is far above both and far below any modelling difference.
-    if abs(q - vals["simple"]) <= 1e-9:
-        ctx.label(not simple and "modularity-of-edgeless")
-    else:
-        alt = [k for k, v in vals.items() if abs(q - v) <= 1e-9]
-        if not alt:
-            raise Violation("louvain:modularity-mismatch", {"reported": q, "recomputed": vals, "communities": icomms, "resolution": gamma})
-        ctx.label("modularity-alt-reading:" + alt[0])
+        # Which graph does the reported modularity refer to?  community.py builds `adj`/`degree` from the
+        # neighbour lists with `w != v` (self loops dropped), `if w not in adj[v]` (a pair counts once however
+        # often and from whichever side it is listed) and mirrors every pair: i.e. the SYMMETRISED SIMPLE
+        # LOOP-FREE graph with unit weights; m = number of distinct pairs; Q = sum_c [L_c/m - gamma (d_c/2m)^2];
+        # an edgeless graph (m = 0, Q undefined) is reported as 0.0.  That is reading (a) = DESIGN's oracle.
+        # Readings (b) loops kept (1 to m, 2 to the degree) and (c) multigraph (pair weight = the larger of the
+        # two listing counts, loops kept) are the other defensible ones; matching only one of those is accepted
+        # but labelled, matching none is the violation.
+        q = res.objective
+        if not isinstance(q, (int, float)) or q != q:
+            raise Violation("louvain:modularity-not-a-number", repr(q))
+        simple = {e: 1 for e in G.edge_list(n, nb)}
+        loops = {(u, u): 1 for u in range(n) if u in adj[u]}
+        multi = {(u, v): max(adj[u].count(v), adj[v].count(u)) for (u, v) in simple}
+        multi.update({(u, u): adj[u].count(u) for (u, _) in loops})
+        readings = {"simple": simple, "simple+loops": {**simple, **loops}, "multigraph": multi}
+        vals = {}
+        for name, w in readings.items():
+            x = G.modularity(n, w, icomms, gamma)
+            vals[name] = 0.0 if x is None else float(x)
+        # 1e-9: Q is a sum of <= n terms of magnitude <= ~10 computed in doubles (error ~1e-15); the exact
+        # value is rounded once by float(); 1e-9 is far above both and far below any modelling difference.
+        cur = (sorted(sorted(c) for c in icomms), q)
+        if abs(q - vals["simple"]) <= 1e-9:
+            ctx.label(not simple and "modularity-of-edgeless")
+        else:
+            alt = [k for k, v in vals.items() if abs(q - v) <= 1e-9]
+            if not alt:
+                judge(step, cur, prev, "louvain", "louvain:modularity-mismatch", {"reported": q, "recomputed": vals, "communities": icomms, "resolution": gamma})
+            ctx.label("modularity-alt-reading:" + alt[0])
+        prev = cur
 
 
 # ----------------------------------------------------------------------------- PageRank
@@ -393,73 +519,85 @@ def run_pagerank(desc, ctx):
     from solvor.pagerank import pagerank, pagerank_edges
     from solvor.types import Status
 
-    n, adj = desc["n"], desc["adj"]
+    n = desc["n"]
     d, tol, max_iter = desc["damping"], desc["tol"], desc["max_iter"]
     api = desc["api"]
-    if api == "edges":
-        L = list(range(n))
-        idx = {i: i for i in range(n)}
-        edges = [(u, v) for u in desc["order"] for v in adj[u]]
-        res = ctx.call(pagerank_edges, n, edges, damping=d, max_iter=max_iter, tol=tol, backend="python")
-    else:
-        L, idx, nodes, neighbors = build(desc)
-        res = ctx.call(pagerank, list(nodes), neighbors, damping=d, max_iter=max_iter, tol=tol)
-
+    live = Live(desc if api != "edges" else {**desc, "scheme": 0})
+    L = live.L
+    adj = live.adj
     dangling = [u for u in range(n) if not adj[u]]
     cyc = G.has_directed_cycle(n, adj)
-    dup = any(len(a) != len(set(a)) for a in adj)
+    edits = desc.get("edits", [])
     ctx.label(
         desc["family"],
         f"api-{api}",
+        api != "edges" and "nodes-as-" + live.kind,
+        f"edits-{len(edits)}",
         dangling and "dangling",
         n and len(dangling) == n and "all-dangling",
         cyc and "directed-cycle",
         any(u in adj[u] for u in range(n)) and "self-loop",
-        dup and "duplicate-arcs",
+        any(len(a) != len(set(a)) for a in adj) and "duplicate-arcs",
         f"tol-{tol:g}",
         n <= 1 and "n<=1",
     )
     ctx.size("n", n)
+    prev = None
+    for step in range(len(edits) + 1):
+        if step:
+            before = [sorted(a) for a in live.adj]
+            live.edit(edits[step - 1])
+            ctx.label([sorted(a) for a in live.adj] != before and "edit-changes-graph")
+        adj = live.adj
+        dangling = [u for u in range(n) if not adj[u]]
+        dup = any(len(a) != len(set(a)) for a in adj)
+        if api == "edges":
+            edges = [(u, v) for u in desc["order"] for v in adj[u]]
+            res = ctx.call(pagerank_edges, n, edges, damping=d, max_iter=max_iter, tol=tol, backend="python")
+        else:
+            res = ctx.call(pagerank, live.nodes(), live.neighbors, damping=d, max_iter=max_iter, tol=tol)
 
-    p = res.solution
-    if not isinstance(p, dict) or set(p) != set(L):
-        raise Violation("pagerank:keys", repr(p)[:300])
-    vec = [p[L[i]] for i in range(n)]
-    if any(not isinstance(x, float) or x != x or x < 0 for x in vec):
-        raise Violation("pagerank:negative-or-nan-score", {"scores": vec})
-    # |sum - 1| <= 1e-9: the map preserves the sum exactly in real arithmetic (dangling mass is handed
-    # out uniformly); rounding contributes ~n*eps per iteration, <= 5000*12*1.1e-16 < 1e-11.
-    if n and abs(math.fsum(vec) - 1.0) > 1e-9:
-        raise Violation("pagerank:sum-not-1", {"sum": math.fsum(vec), "scores": vec, "dangling": dangling})
-    if n == 0:
-        return
+        p = res.solution
+        if not isinstance(p, dict) or set(p) != set(L):
+            raise Violation("pagerank:keys", repr(p)[:300])
+        vec = [p[L[i]] for i in range(n)]
+        if any(not isinstance(x, float) or x != x or x < 0 for x in vec):
+            raise Violation("pagerank:negative-or-nan-score", {"scores": vec})
+        # |sum - 1| <= 1e-9: the map preserves the sum exactly in real arithmetic (dangling mass is handed
+        # out uniformly); rounding contributes ~n*eps per iteration, <= 5000*12*1.1e-16 < 1e-11.
+        if n and abs(math.fsum(vec) - 1.0) > 1e-9:
+            raise Violation("pagerank:sum-not-1", {"sum": math.fsum(vec), "scores": vec, "dangling": dangling})
+        if n == 0:
+            return
 
-    if res.status == Status.MAX_ITER:
-        # ||p_{k+1}-p_k||_inf <= ||.||_1 <= 2 d^k, so  k >= log(tol/2)/log(d)  iterations always suffice.
-        need = math.log(tol / 2) / math.log(d) + 2
-        if max_iter >= need:
-            raise Violation("pagerank:max-iter-despite-contraction", {"max_iter": max_iter, "enough": need, "iterations": res.iterations})
-        raise Inconclusive("pagerank:MAX_ITER(small max_iter)")
-    if res.status != Status.OPTIMAL:
-        raise Violation("pagerank:unexpected-status", repr(res.status))
+        if res.status == Status.MAX_ITER:
+            # ||p_{k+1}-p_k||_inf <= ||.||_1 <= 2 d^k, so  k >= log(tol/2)/log(d)  iterations always suffice.
+            need = math.log(tol / 2) / math.log(d) + 2
+            if max_iter >= need:
+                raise Violation("pagerank:max-iter-despite-contraction", {"max_iter": max_iter, "enough": need, "iterations": res.iterations})
+            raise Inconclusive("pagerank:MAX_ITER(small max_iter)")
+        if res.status != Status.OPTIMAL:
+            raise Violation("pagerank:unexpected-status", repr(res.status))
 
-    # OPTIMAL: the stopping rule gives ||p_{k+1}-p_k||_inf < tol, hence ||.||_1 < n*tol; the PageRank map is
-    # an L1-contraction with factor d, so  ||p_{k+1}-p*||_1 <= d/(1-d) * ||p_{k+1}-p_k||_1 < n*tol*d/(1-d).
-    # (+1e-12 for rounding.)  NOT an L-infinity residual bound: that is not implied (DESIGN §5, oracle mistake i).
-    bound = n * tol * d / (1 - d) + 1e-12
-    dist = {}
-    for name, multi in (("multigraph", True), ("simple", False)):
-        if name == "simple" and not dup:
-            continue
-        star = G.pagerank_exact(n, adj, d, multi)
-        dist[name] = float(sum(abs(Fraction(x) - s) for x, s in zip(vec, star)))
-    ctx.nontrivial(bool(dangling) and cyc)
-    ok = [k for k, v in dist.items() if v <= bound]
-    if not ok:
-        raise Violation("pagerank:far-from-fixed-point", {"l1_distance": dist, "bound": bound, "damping": d, "tol": tol, "iterations": res.iterations, "scores": vec})
-    if dup:
-        ctx.label("duplicates-read-as-" + "/".join(ok))
-    ctx.count("l1/bound<=0.01", dist[ok[0]] <= bound / 100)
+        # OPTIMAL: the stopping rule gives ||p_{k+1}-p_k||_inf < tol, hence ||.||_1 < n*tol; the PageRank map is
+        # an L1-contraction with factor d, so  ||p_{k+1}-p*||_1 <= d/(1-d) * ||p_{k+1}-p_k||_1 < n*tol*d/(1-d).
+        # (+1e-12 for rounding.)  NOT an L-infinity residual bound: that is not implied (DESIGN §5, oracle mistake i).
+        bound = n * tol * d / (1 - d) + 1e-12
+        dist = {}
+        for name, multi in (("multigraph", True), ("simple", False)):
+            if name == "simple" and not dup:
+                continue
+            star = G.pagerank_exact(n, adj, d, multi)
+            dist[name] = float(sum(abs(Fraction(x) - s) for x, s in zip(vec, star)))
+        if step == 0:
+            ctx.nontrivial(bool(dangling) and cyc)
+        ok = [k for k, v in dist.items() if v <= bound]
+        if not ok:
+            judge(step, vec, prev, "pagerank", "pagerank:far-from-fixed-point", {"l1_distance": dist, "bound": bound, "damping": d, "tol": tol, "iterations": res.iterations, "scores": vec})
+        if dup:
+            ctx.label("duplicates-read-as-" + "/".join(ok))
+        ctx.count("l1/bound<=0.01", dist[ok[0]] <= bound / 100)
+        prev = vec
 
 
 SUBS = [
